@@ -546,6 +546,46 @@ theorem docCharsubs_mem (cls : SubTable) (d : List (List Nat)) (sd : List Nat ×
 example : (createDocs charsubs [[[39]], []]).2.map List.length = [7, 8] ∧ (createDocs charsubs [[[39]], []]).1 = charsubs := by
   decide
 
+/-! ## an element that lives in one kind of container ends every other environment -/
+
+/-- **`\item` ends a declaration / any non-list environment**: in the loop of `Environment.digest`, an
+    element whose class names a container class the running environment is not an instance of is pushed
+    back (never absorbed, never dropped) — unless one of the earlier exits (paragraph token, lower level,
+    the environment's own end) applies first. -/
+theorem container_ends_other_env (t x : Tree) (he : x.it.elem = true) (hc : x.it.cont ≠ 0)
+    (hn : t.it.isa.contains x.it.cont = false) (hp : x.it.level ≠ parLevel) :
+    pre .env t x = .push ∨ pre .env t x = .drop := by
+  have h1 : (x.it.level == parLevel) = false := by simpa using hp
+  simp only [pre, h1, Bool.false_eq_true, if_false]
+  split
+  · exact .inl rfl
+  · split
+    · exact .inr rfl
+    · have hn' : x.it.cont ∉ t.it.isa := by simpa using hn
+      simp [he, hc, hn']
+
+/-- … and inside its own container kind it is digested as before -/
+theorem container_inside_own_env (t x : Tree) (hin : t.it.isa.contains x.it.cont = true)
+    (hp : x.it.level ≠ parLevel) (hl : ¬ x.it.level < t.it.level) (hend : (x.it.elem && x.it.modeEnd && x.it.ty == t.it.ty) = false) :
+    pre .env t x = .go := by
+  have h1 : (x.it.level == parLevel) = false := by simpa using hp
+  have hin' : x.it.cont ∈ t.it.isa := by simpa using hin
+  simp [pre, h1, hl, hend, hin']
+
+def exItem (n : Nat) : Tree :=
+  .node { secItem n 1001 with dk := .listItem, isItem := true, cont := 1, block := false, forcePars := true, depth := 2, argLeaves := [] } .unset []
+def exDecl : Tree :=
+  .node { secItem 3 201 with dk := .env, ty := 7, block := false, depth := 2, argLeaves := [] } .unset []
+def exList (n : Nat) (isEnd : Bool) : Tree :=
+  .node { secItem n 201 with dk := .listEnv, ty := 5, isa := [1], modeEnd := isEnd, depth := 1, argLeaves := [] } .unset []
+
+/-- `\begin{itemize}\item \bfseries a \item b\end{itemize}`: the open declaration (an environment that is not a list)
+    is ended by the second item, which becomes a child of the list: the list's children are the two items, the
+    first item holds (in its paragraph) the declaration with `a`; nothing is lost -/
+example : ((digest 40 (exList 1 false) [exItem 2, exDecl, txt 4 [97], exItem 5, txt 6 [98], exList 9 true]).map fun r =>
+            (r.1.kids.map (·.it.ref), leaves r.1, r.2.length)) = some ([.item 2, .item 5], [4, 6], 0) := by
+  decide
+
 /-! ## the clauses together -/
 
 /-- **C07 over the model**: every clean, consistently labelled stream without nested paragraphs is parsed
